@@ -16,8 +16,8 @@ pub fn params(tier: &str) -> (usize, usize) {
 pub fn meta(id: &str, tier: &str) -> CheckMeta {
     let (k, depth) = params(tier);
     let (idc, rule): (&'static str, &'static str) = match id {
-        "C01" => ("C01", "E-hist: BFS over edit histories from every start document (seeds + all strings of <=k lexemes, valid and erroneous) of every zoo language; edit alphabet = every byte offset x {delete 1, delete 2, insert each atom, replace 1 byte}; each transition = Tree::edit + re-parse on the real runtime, compared with a from-scratch parse; state key = (text, internal tree hash via hook H2). Non-trivial = transition on which the new tree shares at least one node identity with the edited old tree (real reuse happened). Plus the included-range box: for every document of <= L bytes, EVERY pair of range lists (R1, R2) over all byte positions and u32::MAX (the empty list = whole document), optionally crossed with every edit: parse(d,R1), edit, parse(d',R2,old) compared with parse(d',R2) from scratch."),
-        _ => ("C04", "same E-hist exploration as C01 (including the included-range box: every pair of range lists R1 -> R2 between consecutive parses); oracle = changed_ranges(old_edited,new) sorted/disjoint/in-document/points consistent and every non-newline byte whose ancestor-kind stack differs is covered. Non-trivial = transition with at least one changed range."),
+        "C01" => ("C01", "Batched edits first: every ordered pair (thorough: triples on short documents) of edits applied with Tree::edit before ONE re-parse. Seeds also get every insertion of two lexemes at once. The range-transition box runs for the language seam (a scanner that queries range boundaries) without edits as well. E-hist: BFS over edit histories from every start document (seeds + all strings of <=k lexemes, valid and erroneous) of every zoo language; edit alphabet = every byte offset x {delete 1, delete 2, insert each atom, replace 1 byte}; each transition = Tree::edit + re-parse on the real runtime, compared with a from-scratch parse; state key = (text, internal tree hash via hook H2). Non-trivial = transition on which the new tree shares at least one node identity with the edited old tree (real reuse happened). Plus the included-range box: for every document of <= L bytes, EVERY pair of range lists (R1, R2) over all byte positions and u32::MAX (the empty list = whole document), optionally crossed with every edit: parse(d,R1), edit, parse(d',R2,old) compared with parse(d',R2) from scratch."),
+        _ => ("C04", "same E-hist exploration as C01, batched-edit box and two-lexeme insertions included (including the included-range box: every pair of range lists R1 -> R2 between consecutive parses); oracle = changed_ranges(old_edited,new) sorted/disjoint/in-document/points consistent and every non-newline byte whose ancestor-kind stack differs is covered. Non-trivial = transition with at least one changed range."),
     };
     CheckMeta {
         id: idc, level: "model_checking", rule,
